@@ -20,6 +20,10 @@ def _record_chunk(job):
         req = tracer_rec.gen(rng, rng.choice(shapes) if shapes else None)
         reqs.append(req)
         ev.append(tracer_rec.record(req))
+    if shapes is None and k == 0:        # C10 / C11: closed curves in short decimals, both directions
+        for req in tracer_rec.closed_curves(random.Random(sd * 17 + 3)):
+            reqs.append(req)
+            ev.append(tracer_rec.record(req))
     if shapes:          # C12: the unit systems, and one path thousands of resolutions long per chunk
         ev.append(tracer_rec.units_event(random.Random(sd * 7 + k)))
         if (k // per) % 4 == 0:
